@@ -85,20 +85,20 @@ package xy
 //@   ensures [within] forall u, v, i int :: {d2at(cells(ls), off(ls), stride, u, v, i)} 0 <= u && u < i && i < v && v < len(mask) && mask[u] == 1 && mask[v] == 1 && noMarks(heapfor("byte"), mask, u, v) ==> d2at(cells(ls), off(ls), stride, u, v, i) <= threshold * threshold
 //@   modifies mask
 //@   at entry: assert len(ls) / stride == len(mask)
-//@   at stmt16: assert mul(i, stride) == i * stride && mul(start, stride) == start * stride && mul(end, stride) == end * stride
-//@   at stmt16: assert dist == d2at(cells(ls), off(ls), stride, start, end, i)
-//@   at stmt24: assert forall k int :: 0 <= k && k + 1 < len(stack) && (len(stack) - k) % 2 == 0 ==> stack[k] < stack[k+1]
-//@   at stmt24: assert forall k int :: 0 <= k && k + 1 < len(stack) && (len(stack) - k) % 2 == 1 ==> stack[k] == stack[k+1]
-//@   at stmt24: assert forall k int :: 0 <= k && k < len(stack) ==> 0 <= stack[k] && stack[k] < len(mask) && mask[stack[k]] == 1 && mul(stack[k] + 1, stride) == mul(stack[k], stride) + stride && 0 <= mul(stack[k], stride)
-//@   at stmt25: assert forall k int :: 0 <= k && k + 1 < len(stack) && (len(stack) - k) % 2 == 0 ==> stack[k] < stack[k+1]
-//@   at stmt25: assert forall k int :: 0 <= k && k + 1 < len(stack) && (len(stack) - k) % 2 == 1 ==> stack[k] == stack[k+1]
-//@   at stmt25: assert forall k int :: 0 <= k && k < len(stack) ==> 0 <= stack[k] && stack[k] < len(mask) && mask[stack[k]] == 1 && mul(stack[k] + 1, stride) == mul(stack[k], stride) + stride && 0 <= mul(stack[k], stride)
-//@   at stmt24: assert forall a, b int :: 0 <= a && a <= b && b < len(stack) ==> stack[a] <= stack[b]
-//@   at stmt25: assert forall a, b int :: 0 <= a && a <= b && b < len(stack) ==> stack[a] <= stack[b]
-//@   at stmt24: assert forall k, w int :: 0 <= k && k + 1 < len(stack) && (len(stack) - k) % 2 == 0 && stack[k] < w && w < stack[k+1] ==> mask[w] == 0
-//@   at stmt25: assert forall k, w int :: 0 <= k && k + 1 < len(stack) && (len(stack) - k) % 2 == 0 && stack[k] < w && w < stack[k+1] ==> mask[w] == 0
-//@   at stmt24: assert forall u, v, i int :: {d2at(cells(ls), off(ls), stride, u, v, i)} end <= u && u < i && i < v && v < len(mask) && mask[u] == 1 && mask[v] == 1 && noMarks(heapfor("byte"), mask, u, v) ==> d2at(cells(ls), off(ls), stride, u, v, i) <= threshold * threshold
-//@   at stmt25: assert forall u, v, i int :: {d2at(cells(ls), off(ls), stride, u, v, i)} start <= u && u < i && i < v && v < len(mask) && mask[u] == 1 && mask[v] == 1 && noMarks(heapfor("byte"), mask, u, v) ==> d2at(cells(ls), off(ls), stride, u, v, i) <= threshold * threshold
+//@   at stmt[dist := distanceFromSegmentSquared(a, b, p)]: assert mul(i, stride) == i * stride && mul(start, stride) == start * stride && mul(end, stride) == end * stride
+//@   at stmt[dist := distanceFromSegmentSquared(a, b, p)]: assert dist == d2at(cells(ls), off(ls), stride, start, end, i)
+//@   at stmt[stack = append(stack, maxIndex, end)]: assert forall k int :: 0 <= k && k + 1 < len(stack) && (len(stack) - k) % 2 == 0 ==> stack[k] < stack[k+1]
+//@   at stmt[stack = append(stack, maxIndex, end)]: assert forall k int :: 0 <= k && k + 1 < len(stack) && (len(stack) - k) % 2 == 1 ==> stack[k] == stack[k+1]
+//@   at stmt[stack = append(stack, maxIndex, end)]: assert forall k int :: 0 <= k && k < len(stack) ==> 0 <= stack[k] && stack[k] < len(mask) && mask[stack[k]] == 1 && mul(stack[k] + 1, stride) == mul(stack[k], stride) + stride && 0 <= mul(stack[k], stride)
+//@   at stmt[stack = stack[:l-2]]: assert forall k int :: 0 <= k && k + 1 < len(stack) && (len(stack) - k) % 2 == 0 ==> stack[k] < stack[k+1]
+//@   at stmt[stack = stack[:l-2]]: assert forall k int :: 0 <= k && k + 1 < len(stack) && (len(stack) - k) % 2 == 1 ==> stack[k] == stack[k+1]
+//@   at stmt[stack = stack[:l-2]]: assert forall k int :: 0 <= k && k < len(stack) ==> 0 <= stack[k] && stack[k] < len(mask) && mask[stack[k]] == 1 && mul(stack[k] + 1, stride) == mul(stack[k], stride) + stride && 0 <= mul(stack[k], stride)
+//@   at stmt[stack = append(stack, maxIndex, end)]: assert forall a, b int :: 0 <= a && a <= b && b < len(stack) ==> stack[a] <= stack[b]
+//@   at stmt[stack = stack[:l-2]]: assert forall a, b int :: 0 <= a && a <= b && b < len(stack) ==> stack[a] <= stack[b]
+//@   at stmt[stack = append(stack, maxIndex, end)]: assert forall k, w int :: 0 <= k && k + 1 < len(stack) && (len(stack) - k) % 2 == 0 && stack[k] < w && w < stack[k+1] ==> mask[w] == 0
+//@   at stmt[stack = stack[:l-2]]: assert forall k, w int :: 0 <= k && k + 1 < len(stack) && (len(stack) - k) % 2 == 0 && stack[k] < w && w < stack[k+1] ==> mask[w] == 0
+//@   at stmt[stack = append(stack, maxIndex, end)]: assert forall u, v, i int :: {d2at(cells(ls), off(ls), stride, u, v, i)} end <= u && u < i && i < v && v < len(mask) && mask[u] == 1 && mask[v] == 1 && noMarks(heapfor("byte"), mask, u, v) ==> d2at(cells(ls), off(ls), stride, u, v, i) <= threshold * threshold
+//@   at stmt[stack = stack[:l-2]]: assert forall u, v, i int :: {d2at(cells(ls), off(ls), stride, u, v, i)} start <= u && u < i && i < v && v < len(mask) && mask[u] == 1 && mask[v] == 1 && noMarks(heapfor("byte"), mask, u, v) ==> d2at(cells(ls), off(ls), stride, u, v, i) <= threshold * threshold
 //@   at loop2.end: assert d2at(cells(ls), off(ls), stride, start, end, i - 1) <= maxDist
 //@   loop 1:
 //@     invariant [shape] l == len(stack) && l >= 0 && l % 2 == 0 && fresh(stack) && (l > 0 ==> stack[0] == 0) && found >= 2
@@ -193,7 +193,7 @@ package xy
 //@   ensures calc.centSum[0] == old(calc.centSum[0]) + msum(cells(line), off(line) + startLine, calc.stride, 0, cnt(endLine - startLine, calc.stride) - 1)
 //@   ensures calc.centSum[1] == old(calc.centSum[1]) + msum(cells(line), off(line) + startLine, calc.stride, 1, cnt(endLine - startLine, calc.stride) - 1)
 //@   modifies *calc, calc.centSum[0:2]
-//@   at stmt5: assert segmentLen == seglen(cells(line), off(line) + startLine, calc.stride, m + 1)
+//@   at stmt[segmentLen := internal.Distance2D(geom.Coord(line[i:i+2]), geom.Coord(line[i+calc.stride:i+calc.stride+2]))]: assert segmentLen == seglen(cells(line), off(line) + startLine, calc.stride, m + 1)
 //@   loop 1:
 //@     ghost m int = 0 step m + 1
 //@     invariant m >= 0 && i == startLine + mul(m, calc.stride) && lineMinusLastPoint == endLine - calc.stride && mul(m + 1, calc.stride) == mul(m, calc.stride) + calc.stride && endLine - startLine == mul(cnt(endLine - startLine, calc.stride), calc.stride)
@@ -230,9 +230,9 @@ package xy
 //@   ensures calc.cg3[1] == old(calc.cg3[1]) + (isPositiveArea ? 0.0 - 1.0 : 1.0) * ((p1[0]-p0[0])*(p2[1]-p0[1]) - (p2[0]-p0[0])*(p1[1]-p0[1])) * (p0[1] + p1[1] + p2[1])
 //@   ensures calc.cg3 == old(calc.cg3) && calc.triangleCent3 == old(calc.triangleCent3) && calc.basePt == old(calc.basePt) && calc.centSum == old(calc.centSum) && calc.totalLength == old(calc.totalLength) && calc.stride == old(calc.stride) && calc.layout == old(calc.layout)
 //@   modifies *calc, calc.cg3[0:2], calc.triangleCent3[0:2]
-//@   at stmt5: assert sign == (isPositiveArea ? 0.0 - 1.0 : 1.0) && area2 == ((p1[0]-p0[0])*(p2[1]-p0[1]) - (p2[0]-p0[0])*(p1[1]-p0[1])) && calc.triangleCent3[0] == p0[0] + p1[0] + p2[0] && calc.triangleCent3[1] == p0[1] + p1[1] + p2[1]
-//@   at stmt6: assert calc.cg3[0] == old(calc.cg3[0]) + (isPositiveArea ? 0.0 - 1.0 : 1.0) * ((p1[0]-p0[0])*(p2[1]-p0[1]) - (p2[0]-p0[0])*(p1[1]-p0[1])) * (p0[0] + p1[0] + p2[0]) && calc.cg3[1] == old(calc.cg3[1]) && calc.triangleCent3[1] == p0[1] + p1[1] + p2[1] && area2 == ((p1[0]-p0[0])*(p2[1]-p0[1]) - (p2[0]-p0[0])*(p1[1]-p0[1])) && sign == (isPositiveArea ? 0.0 - 1.0 : 1.0)
-//@   at stmt7: assert calc.cg3[1] == old(calc.cg3[1]) + (isPositiveArea ? 0.0 - 1.0 : 1.0) * ((p1[0]-p0[0])*(p2[1]-p0[1]) - (p2[0]-p0[0])*(p1[1]-p0[1])) * (p0[1] + p1[1] + p2[1]) && calc.cg3[0] == old(calc.cg3[0]) + (isPositiveArea ? 0.0 - 1.0 : 1.0) * ((p1[0]-p0[0])*(p2[1]-p0[1]) - (p2[0]-p0[0])*(p1[1]-p0[1])) * (p0[0] + p1[0] + p2[0])
+//@   at stmt[area2 := area2(p0, p1, p2)]: assert sign == (isPositiveArea ? 0.0 - 1.0 : 1.0) && area2 == ((p1[0]-p0[0])*(p2[1]-p0[1]) - (p2[0]-p0[0])*(p1[1]-p0[1])) && calc.triangleCent3[0] == p0[0] + p1[0] + p2[0] && calc.triangleCent3[1] == p0[1] + p1[1] + p2[1]
+//@   at stmt[calc.cg3[0] += sign * area2 * calc.triangleCent3[0]]: assert calc.cg3[0] == old(calc.cg3[0]) + (isPositiveArea ? 0.0 - 1.0 : 1.0) * ((p1[0]-p0[0])*(p2[1]-p0[1]) - (p2[0]-p0[0])*(p1[1]-p0[1])) * (p0[0] + p1[0] + p2[0]) && calc.cg3[1] == old(calc.cg3[1]) && calc.triangleCent3[1] == p0[1] + p1[1] + p2[1] && area2 == ((p1[0]-p0[0])*(p2[1]-p0[1]) - (p2[0]-p0[0])*(p1[1]-p0[1])) && sign == (isPositiveArea ? 0.0 - 1.0 : 1.0)
+//@   at stmt[calc.cg3[1] += sign * area2 * calc.triangleCent3[1]]: assert calc.cg3[1] == old(calc.cg3[1]) + (isPositiveArea ? 0.0 - 1.0 : 1.0) * ((p1[0]-p0[0])*(p2[1]-p0[1]) - (p2[0]-p0[0])*(p1[1]-p0[1])) * (p0[1] + p1[1] + p2[1]) && calc.cg3[0] == old(calc.cg3[0]) + (isPositiveArea ? 0.0 - 1.0 : 1.0) * ((p1[0]-p0[0])*(p2[1]-p0[1]) - (p2[0]-p0[0])*(p1[1]-p0[1])) * (p0[0] + p1[0] + p2[0])
 
 // area-weighted mean: cg3 / 3 / areasum2 (the textbook closed form once the accumulators are the fan sums);
 // zero area falls back to the length-weighted line centroid
@@ -253,9 +253,9 @@ package xy
 //@   ensures calc.centSum[1] == old(calc.centSum[1]) + msum(cells(pts), off(pts), calc.stride, 1, cnt(len(pts), calc.stride) - 1)
 //@   ensures calc.stride == old(calc.stride) && calc.layout == old(calc.layout) && calc.centSum == old(calc.centSum) && calc.cg3 == old(calc.cg3) && calc.triangleCent3 == old(calc.triangleCent3) && calc.basePt == old(calc.basePt) && calc.areasum2 == old(calc.areasum2)
 //@   modifies *calc, calc.centSum[0:2]
-//@   at stmt5: assert segmentLen == seglen(cells(pts), off(pts), stride, m + 1)
-//@   at stmt7: assert midx == (pts[mul(m + 1, stride) - stride] + pts[mul(m + 1, stride)]) / 2.0
-//@   at stmt9: assert midy == (pts[mul(m + 1, stride) - stride + 1] + pts[mul(m + 1, stride) + 1]) / 2.0
+//@   at stmt[segmentLen := internal.Distance2D(geom.Coord(pts[i:i+2]), pts[i+stride:i+stride+2])]: assert segmentLen == seglen(cells(pts), off(pts), stride, m + 1)
+//@   at stmt[midx := (pts[i] + pts[i+stride]) / 2]: assert midx == (pts[mul(m + 1, stride) - stride] + pts[mul(m + 1, stride)]) / 2.0
+//@   at stmt[midy := (pts[i+1] + pts[i+stride+1]) / 2]: assert midy == (pts[mul(m + 1, stride) - stride + 1] + pts[mul(m + 1, stride) + 1]) / 2.0
 //@   loop 1:
 //@     ghost m int = 0 step m + 1
 //@     invariant m >= 0 && i == mul(m, stride) && stride == calc.stride && mul(m + 1, stride) == mul(m, stride) + stride && len(pts) == mul(cnt(len(pts), stride), stride)
@@ -279,14 +279,14 @@ package xy
 //@     ghost m int = 1 step m + 1
 //@     invariant m >= 1 && i == mul(m, stride) && m <= cnt(len(ring), stride) && stride == strideOf(layout) && nOrds == len(ring) - stride && len(ring) == mul(cnt(len(ring), stride), stride)
 //@     invariant hiIndex == topIdx(cells(ring), off(ring), stride, m - 1) && 0 <= hiIndex && hiIndex <= len(ring) - stride
-//@   at stmt12: assert m == cnt(len(ring), stride)
-//@   at stmt12: assert hiIndex == topIdx(cells(ring), off(ring), strideOf(layout), cnt(len(ring), strideOf(layout)) - 1)
-//@   at stmt15: assert (!same2(cells(ring), off(ring), iPrev, hiIndex) || iPrev == hiIndex) ==> iPrev == rccPrev(cells(ring), off(ring), stride, nOrds, hiIndex, hiIndex)
-//@   at stmt21: assert iNext == (g + stride >= nOrds ? g + stride - nOrds : g + stride)
-//@   at stmt21: assert (!same2(cells(ring), off(ring), iNext, hiIndex) || iNext == hiIndex) ==> iNext == rccNext(cells(ring), off(ring), stride, nOrds, hiIndex, hiIndex)
-//@   at stmt20: assert iNext == rccNext(cells(ring), off(ring), stride, nOrds, hiIndex, hiIndex) && iPrev == rccPrev(cells(ring), off(ring), stride, nOrds, hiIndex, hiIndex)
-//@   at stmt20: assert (same2(cells(ring), off(ring), iPrev, hiIndex) || same2(cells(ring), off(ring), iNext, hiIndex) || same2(cells(ring), off(ring), iPrev, iNext)) ==> !rccTurn(cells(ring), off(ring), iPrev, hiIndex, iNext)
-//@   at stmt19: assert iPrev == rccPrev(cells(ring), off(ring), stride, nOrds, hiIndex, hiIndex)
+//@   at stmt[iPrev := hiIndex]: assert m == cnt(len(ring), stride)
+//@   at stmt[iPrev := hiIndex]: assert hiIndex == topIdx(cells(ring), off(ring), strideOf(layout), cnt(len(ring), strideOf(layout)) - 1)
+//@   at stmt[if iPrev < 0]: assert (!same2(cells(ring), off(ring), iPrev, hiIndex) || iPrev == hiIndex) ==> iPrev == rccPrev(cells(ring), off(ring), stride, nOrds, hiIndex, hiIndex)
+//@   at stmt[iNext = (iNext + stride) % nOrds]: assert iNext == (g + stride >= nOrds ? g + stride - nOrds : g + stride)
+//@   at stmt[iNext = (iNext + stride) % nOrds]: assert (!same2(cells(ring), off(ring), iNext, hiIndex) || iNext == hiIndex) ==> iNext == rccNext(cells(ring), off(ring), stride, nOrds, hiIndex, hiIndex)
+//@   at stmt[for]#2: assert iNext == rccNext(cells(ring), off(ring), stride, nOrds, hiIndex, hiIndex) && iPrev == rccPrev(cells(ring), off(ring), stride, nOrds, hiIndex, hiIndex)
+//@   at stmt[for]#2: assert (same2(cells(ring), off(ring), iPrev, hiIndex) || same2(cells(ring), off(ring), iNext, hiIndex) || same2(cells(ring), off(ring), iPrev, iNext)) ==> !rccTurn(cells(ring), off(ring), iPrev, hiIndex, iNext)
+//@   at stmt[iNext := hiIndex]: assert iPrev == rccPrev(cells(ring), off(ring), stride, nOrds, hiIndex, hiIndex)
 //@   loop 2:
 //@     decreases *
 //@     invariant 0 <= iPrev && iPrev <= nOrds && 0 <= hiIndex && hiIndex <= nOrds
@@ -308,7 +308,7 @@ package xy
 //@   ensures calc.totalLength == old(calc.totalLength) + lsum(cells(pts), off(pts), calc.stride, cnt(len(pts), calc.stride) - 1)
 //@   ensures calc.stride == old(calc.stride) && calc.layout == old(calc.layout) && calc.centSum == old(calc.centSum) && calc.cg3 == old(calc.cg3) && calc.triangleCent3 == old(calc.triangleCent3) && calc.basePt == old(calc.basePt)
 //@   modifies *calc, calc.cg3[0:2], calc.triangleCent3[0:2], calc.centSum[0:2]
-//@   at stmt11: assert p1[0] == pts[mul(m + 1, stride) - stride] && p1[1] == pts[mul(m + 1, stride) - stride + 1] && p2[0] == pts[mul(m + 1, stride)] && p2[1] == pts[mul(m + 1, stride) + 1]
+//@   at stmt[p2[1] = pts[i+stride+1]]: assert p1[0] == pts[mul(m + 1, stride) - stride] && p1[1] == pts[mul(m + 1, stride) - stride + 1] && p2[0] == pts[mul(m + 1, stride)] && p2[1] == pts[mul(m + 1, stride) + 1]
 //@   at loop1.end: assert fanA(cells(pts), off(pts), stride, calc.basePt[0], calc.basePt[1], m) == fanA(cells(pts), off(pts), stride, calc.basePt[0], calc.basePt[1], m - 1) + ((pts[mul(m, stride) - stride] - calc.basePt[0]) * (pts[mul(m, stride) + 1] - calc.basePt[1]) - (pts[mul(m, stride)] - calc.basePt[0]) * (pts[mul(m, stride) - stride + 1] - calc.basePt[1]))
 //@   at loop1.end: assert fanC(cells(pts), off(pts), stride, calc.basePt[0], calc.basePt[1], 0, m) == fanC(cells(pts), off(pts), stride, calc.basePt[0], calc.basePt[1], 0, m - 1) + ((pts[mul(m, stride) - stride] - calc.basePt[0]) * (pts[mul(m, stride) + 1] - calc.basePt[1]) - (pts[mul(m, stride)] - calc.basePt[0]) * (pts[mul(m, stride) - stride + 1] - calc.basePt[1])) * (calc.basePt[0] + pts[mul(m, stride) - stride] + pts[mul(m, stride)])
 //@   at loop1.end: assert fanC(cells(pts), off(pts), stride, calc.basePt[0], calc.basePt[1], 1, m) == fanC(cells(pts), off(pts), stride, calc.basePt[0], calc.basePt[1], 1, m - 1) + ((pts[mul(m, stride) - stride] - calc.basePt[0]) * (pts[mul(m, stride) + 1] - calc.basePt[1]) - (pts[mul(m, stride)] - calc.basePt[0]) * (pts[mul(m, stride) - stride + 1] - calc.basePt[1])) * (calc.basePt[1] + pts[mul(m, stride) - stride + 1] + pts[mul(m, stride) + 1])
@@ -333,7 +333,7 @@ package xy
 //@   ensures calc.totalLength == old(calc.totalLength) + lsum(cells(pts), off(pts), calc.stride, cnt(len(pts), calc.stride) - 1)
 //@   ensures calc.stride == old(calc.stride) && calc.layout == old(calc.layout) && calc.centSum == old(calc.centSum) && calc.cg3 == old(calc.cg3) && calc.triangleCent3 == old(calc.triangleCent3) && calc.basePt == old(calc.basePt)
 //@   modifies *calc, calc.cg3[0:2], calc.triangleCent3[0:2], calc.centSum[0:2]
-//@   at stmt11: assert p1[0] == pts[mul(m + 1, stride) - stride] && p1[1] == pts[mul(m + 1, stride) - stride + 1] && p2[0] == pts[mul(m + 1, stride)] && p2[1] == pts[mul(m + 1, stride) + 1]
+//@   at stmt[p2[1] = pts[i+stride+1]]: assert p1[0] == pts[mul(m + 1, stride) - stride] && p1[1] == pts[mul(m + 1, stride) - stride + 1] && p2[0] == pts[mul(m + 1, stride)] && p2[1] == pts[mul(m + 1, stride) + 1]
 //@   at loop1.end: assert fanA(cells(pts), off(pts), stride, calc.basePt[0], calc.basePt[1], m) == fanA(cells(pts), off(pts), stride, calc.basePt[0], calc.basePt[1], m - 1) + ((pts[mul(m, stride) - stride] - calc.basePt[0]) * (pts[mul(m, stride) + 1] - calc.basePt[1]) - (pts[mul(m, stride)] - calc.basePt[0]) * (pts[mul(m, stride) - stride + 1] - calc.basePt[1]))
 //@   at loop1.end: assert fanC(cells(pts), off(pts), stride, calc.basePt[0], calc.basePt[1], 0, m) == fanC(cells(pts), off(pts), stride, calc.basePt[0], calc.basePt[1], 0, m - 1) + ((pts[mul(m, stride) - stride] - calc.basePt[0]) * (pts[mul(m, stride) + 1] - calc.basePt[1]) - (pts[mul(m, stride)] - calc.basePt[0]) * (pts[mul(m, stride) - stride + 1] - calc.basePt[1])) * (calc.basePt[0] + pts[mul(m, stride) - stride] + pts[mul(m, stride)])
 //@   at loop1.end: assert fanC(cells(pts), off(pts), stride, calc.basePt[0], calc.basePt[1], 1, m) == fanC(cells(pts), off(pts), stride, calc.basePt[0], calc.basePt[1], 1, m - 1) + ((pts[mul(m, stride) - stride] - calc.basePt[0]) * (pts[mul(m, stride) + 1] - calc.basePt[1]) - (pts[mul(m, stride)] - calc.basePt[0]) * (pts[mul(m, stride) - stride + 1] - calc.basePt[1])) * (calc.basePt[1] + pts[mul(m, stride) - stride + 1] + pts[mul(m, stride) + 1])
@@ -377,7 +377,7 @@ package xy
 //@   panics when len(lineSegmentCoordinates) < 2 * strideOf(layout)
 //@   ensures res <==> lineOn(point[0], point[1], cells(lineSegmentCoordinates), off(lineSegmentCoordinates), strideOf(layout), cnt(len(lineSegmentCoordinates), strideOf(layout)) - 1)
 //@   modifies nothing
-//@   at stmt9: use lineOnMono(point[0], point[1], cells(lineSegmentCoordinates), off(lineSegmentCoordinates), stride, m + 1, cnt(len(lineSegmentCoordinates), stride) - 1)
+//@   at stmt[segmentEnd := lineSegmentCoordinates[i : i+2]]: use lineOnMono(point[0], point[1], cells(lineSegmentCoordinates), off(lineSegmentCoordinates), stride, m + 1, cnt(len(lineSegmentCoordinates), stride) - 1)
 //@   loop 1:
 //@     ghost m int = 0 step m + 1
 //@     invariant m >= 0 && i == mul(m + 1, stride) && stride == strideOf(layout) && mul(m + 2, stride) == mul(m + 1, stride) + stride && len(lineSegmentCoordinates) == mul(cnt(len(lineSegmentCoordinates), stride), stride) && (m == 0 || mul(m, stride) < len(lineSegmentCoordinates))
@@ -416,12 +416,12 @@ package xy
 //@   lemmas mulCancel, mulCancel2, mulNonneg, mulMono
 //@   requires calc.stride >= 2 && calc.stride == strideOf(calc.layout) && whole(len(pts), calc.stride) && len(pts) >= calc.stride
 //@   modifies pts
-//@   at stmt5: assert pts[0] == c0[off(pts)+i] && pts[1] == c0[off(pts)+i+1] && pts[i] == c0[off(pts)] && pts[i+1] == c0[off(pts)+1]
-//@   at stmt5: assert forall k int :: {mul(k, calc.stride)} 1 <= k && k < q ==> calc.stride <= mul(k, calc.stride) && mul(k, calc.stride) + calc.stride <= i
-//@   at stmt5: assert forall k int :: {mul(k, calc.stride)} 1 <= k && k < q ==> pts[mul(k, calc.stride)] == c0[off(pts)+mul(k, calc.stride)] && pts[mul(k, calc.stride)+1] == c0[off(pts)+mul(k, calc.stride)+1]
-//@   at stmt5: assert forall k int :: {mul(k, calc.stride)} 1 <= k && k < q ==> pts[1] < pts[mul(k, calc.stride) + 1] || (pts[1] == pts[mul(k, calc.stride) + 1] && pts[0] <= pts[mul(k, calc.stride)])
-//@   at stmt5: assert pts[1] < pts[mul(q, calc.stride) + 1] || (pts[1] == pts[mul(q, calc.stride) + 1] && pts[0] <= pts[mul(q, calc.stride)])
-//@   at stmt5: assert forall k int :: {mul(k, calc.stride)} 0 <= k && k < q + 1 ==> pts[1] < pts[mul(k, calc.stride) + 1] || (pts[1] == pts[mul(k, calc.stride) + 1] && pts[0] <= pts[mul(k, calc.stride)])
+//@   at stmt[for k := range calc.stride]: assert pts[0] == c0[off(pts)+i] && pts[1] == c0[off(pts)+i+1] && pts[i] == c0[off(pts)] && pts[i+1] == c0[off(pts)+1]
+//@   at stmt[for k := range calc.stride]: assert forall k int :: {mul(k, calc.stride)} 1 <= k && k < q ==> calc.stride <= mul(k, calc.stride) && mul(k, calc.stride) + calc.stride <= i
+//@   at stmt[for k := range calc.stride]: assert forall k int :: {mul(k, calc.stride)} 1 <= k && k < q ==> pts[mul(k, calc.stride)] == c0[off(pts)+mul(k, calc.stride)] && pts[mul(k, calc.stride)+1] == c0[off(pts)+mul(k, calc.stride)+1]
+//@   at stmt[for k := range calc.stride]: assert forall k int :: {mul(k, calc.stride)} 1 <= k && k < q ==> pts[1] < pts[mul(k, calc.stride) + 1] || (pts[1] == pts[mul(k, calc.stride) + 1] && pts[0] <= pts[mul(k, calc.stride)])
+//@   at stmt[for k := range calc.stride]: assert pts[1] < pts[mul(q, calc.stride) + 1] || (pts[1] == pts[mul(q, calc.stride) + 1] && pts[0] <= pts[mul(q, calc.stride)])
+//@   at stmt[for k := range calc.stride]: assert forall k int :: {mul(k, calc.stride)} 0 <= k && k < q + 1 ==> pts[1] < pts[mul(k, calc.stride) + 1] || (pts[1] == pts[mul(k, calc.stride) + 1] && pts[0] <= pts[mul(k, calc.stride)])
 //@   loop 1:
 //@     ghost q int = 1 step q + 1
 //@     invariant q >= 1 && i == mul(q, calc.stride) && mul(q + 1, calc.stride) == mul(q, calc.stride) + calc.stride && len(pts) == mul(cnt(len(pts), calc.stride), calc.stride) && i <= len(pts)
@@ -514,9 +514,9 @@ package xy
 //@   ensures fresh(res) && whole(len(res), calc.stride) && len(res) >= calc.stride
 //@   modifies nothing
 //@   ensures [last-kept] forall j int :: 0 <= j && j < calc.stride ==> res[len(res) - calc.stride + j] == original[len(original) - calc.stride + j]
-//@   at stmt6: assert [duplicate-test] !(original[i] == original[i + calc.stride] && original[i + 1] == original[i + calc.stride + 1])
-//@   at stmt9: assert [neighbours] currentCoordinate[0] == original[i] && currentCoordinate[1] == original[i + 1] && nextCoordinate[0] == original[i + calc.stride] && nextCoordinate[1] == original[i + calc.stride + 1]
-//@   at stmt12: assert [appended] forall j int :: 0 <= j && j < calc.stride ==> cleanedRing[len(cleanedRing) - calc.stride + j] == original[i + j]
+//@   at stmt[if internal.Equal(original, i, original, i+calc.stride)]: assert [duplicate-test] !(original[i] == original[i + calc.stride] && original[i + 1] == original[i + calc.stride + 1])
+//@   at stmt[nextCoordinate := original[i+calc.stride : i+calc.stride+calc.stride]]: assert [neighbours] currentCoordinate[0] == original[i] && currentCoordinate[1] == original[i + 1] && nextCoordinate[0] == original[i + calc.stride] && nextCoordinate[1] == original[i + calc.stride + 1]
+//@   at stmt[cleanedRing = append(cleanedRing, currentCoordinate...)]: assert [appended] forall j int :: 0 <= j && j < calc.stride ==> cleanedRing[len(cleanedRing) - calc.stride + j] == original[i + j]
 //@   loop 1:
 //@     ghost q int = 0 step q + 1
 //@     ghost u int = 0 step cnt(len(cleanedRing), calc.stride)
